@@ -14,7 +14,9 @@ SPEC = {
             "(recovered from the re-drawn nonce; white-box: calcChallenge with a dummy in place of A, G or V); qndleq: (two safe primes from a committed pool of 14, squares g and h, exponent, security "
             "parameter), 3..5 alterations, one false statement with 26..27 candidate proofs and one statement whose gx and hx are both non-units (0, N, p, q, k·p) with 27 candidate proofs incl. C recomputed for degenerate commitments (black-box through a replica of the challenge calibrated on the honest proof; white-box through doChallenge); simot: (group, choice bit, equal-length message pair) followed by 1..3 further transfers on the same Sender/Receiver objects. "
             "In a third of the oprf cases the key is decoded into a PrivateKey object that already held another key; qndleq proofs also carry boundary values of SecParam (top of the uint range, 2^k and 2^k±1). "
-            "non-trivial = the evaluated case contains an alteration, a false statement, a degenerate/forged proof, a second blind vector, or an OT "
+            "Half of the oprf cases use one client and one server object for every call, half run a buffer-reuse scenario (info, inputs and blinds rewritten in place and handed to the same objects again); "
+            "oprf-lengths compares DeriveKey and FullEvaluate with the reference at field lengths 0,1,255..257,511..513,65534,65535 in every suite and mode; qndleq exponents range over [0,N), [N,N+5], k*N+x0, |N|+384 bits and negative values. "
+            "non-trivial = the evaluated case contains an alteration, a false statement, a degenerate/forged proof, a second blind vector, a boundary-length comparison with the reference, a caller buffer rewritten in place, or an OT "
             "run with swapped ciphertexts (honest-only evaluations are counted as evaluations but not as non-trivial); distinct by FNV-64 of "
             "(sub-check, case description, alteration). Alterations that turn out to be the identity, or that only re-encode the same scalars "
             "(non-canonical aliases, property C09), are counted in their own classes and are not evaluated",
